@@ -291,8 +291,10 @@ static Boolean Decode_rpa2(
     }
     *Erg  = (BaseReg == 3) ? 15 : 11;
     /* a '-' belongs to the displacement expression, a '+' only separates register and displacement
-       (the expression parser knows no unary plus in front of a symbol or a parenthesis) */
-    *Disp = EvalStrIntExpressionOffs(pArg, p - pArg->str.p_str + ((*p == '+') ? 1 : 0), SInt8, &OK);
+       (the expression parser knows no unary plus in front of a symbol or a parenthesis);
+       the offset byte is added to DE / HL as an unsigned value 0..255; -128..-1 stay accepted as
+       two's complement spelling */
+    *Disp = (ShortInt)EvalStrIntExpressionOffs(pArg, p - pArg->str.p_str + ((*p == '+') ? 1 : 0), Int8, &OK);
     return OK;
 }
 
